@@ -2312,7 +2312,24 @@ pub fn gen_step(w: &World, r: &mut Rng, g: &mut GenCtx, k: u64, stats: &mut Stat
         let eowner = w.engine_config().map(|c| w.id(c.owner.as_str())).unwrap_or(OWNER);
         let call = |g: &mut GenCtx, by: u64, msg: Msg| g.plan.push_back(Plan::Call { by, msg });
         let other = |cur: u64| if cur == NEWOWNER { STRANGER } else { NEWOWNER };
-        match hh % 8 {
+        match hh % 9 {
+            8 => {
+                // a market OWNED BY THE FUND CONTRACT (the repository's shutdown fixture deploys its markets that way): the fund may close it
+                // through the owner arm of `set_open` even while the market's own fund setting points elsewhere — an emergency shutdown
+                // must leave it closed like every other registered market
+                if let Some(v) = vis.iter().find(|v| v.usable()) {
+                    let id = v.id;
+                    let o = w.vamm_owner(&v.addr);
+                    let vcfg = |uifd: Option<u64>| Msg::VCfg { v: id, ucap: None, uoic: None, utoll: None, uspread: None, ufluct: None, ueng: None, uifd, ufeed: None, utwi: None };
+                    call(g, o, Msg::VOwner { v: id, new: IFUND });
+                    call(g, IFUND, vcfg(Some(NEWOWNER)));
+                    call(g, w.if_owner(), Msg::IfShutdown);
+                    call(g, IFUND, vcfg(Some(IFUND)));
+                    call(g, IFUND, Msg::VSetOpen { v: id, uopen: 1 });
+                    call(g, IFUND, Msg::VOwner { v: id, new: o });
+                    stats.count("campaign", "role_fund_owns_market");
+                }
+            }
             6 => {
                 // the ENGINE names another insurance fund: that account gains nothing on the vAMMs (each vAMM trusts the fund in its
                 // OWN configuration), the registered fund can still shut the markets down
